@@ -9,3 +9,9 @@ pub type Coin = BigNum;
 clone_eq!(AssetName, ScriptHash);
 impl Clone for Assets { #[verifier::external_body] fn clone(&self) -> (r: Self) ensures r == *self { unimplemented!() } }
 impl Clone for MultiAsset { #[verifier::external_body] fn clone(&self) -> (r: Self) ensures r == *self { unimplemented!() } }
+
+/// `m.entry(k).or_default()` on the policy map (R-entryordefault): the bundle stored under k - an EMPTY one is put there first when k is new - handed out as a
+/// mutable borrow; the map afterwards holds whatever the borrow was left at
+#[verifier::external_body] pub fn omap_or_default_assets_(m: &mut OMap<PolicyID, Assets>, k: PolicyID) -> (r: &mut Assets)
+    ensures r.0@ == (if old(m)@.contains_key(k) { old(m)@[k].0@ } else { Map::<AssetName, BigNum>::empty() }),
+            final(m)@ == old(m)@.insert(k, *final(r)) { unimplemented!() }
